@@ -37,7 +37,7 @@ def shards(tier):
 
 def floors(tier):
     return {"strings": 5000, "with_legacy": 3000, "legacy_reached": 2000, "no_legacy": 500, "rejected_without_flag": 1500,
-            "set:legacy_branch_ring_forms": 21, "set:expl_atoms": 40, "with_empty_fragment": 300}
+            "set:legacy_branch_ring_forms": 21, "set:expl_atoms": 40, "with_empty_fragment": 300, "vocabulary_built_on_library_alphabet": 1000}
 
 
 def all_legacy(rng):
@@ -84,6 +84,14 @@ def run(ctx):
         legacy_pos = [i for i, t in enumerate(toks) if t != "." and is_legacy(t)]
         payload = {"selfies": x, "modernised": y, "table": table}
         ctx.count("strings")
+        if rng.random() < 0.12:
+            # what a caller with an archived data set does around the decode: a vocabulary built from the library's
+            # alphabet plus the data set's own (legacy) symbols, and the utilities on the raw string
+            vocab = sf.get_semantic_robust_alphabet()
+            vocab.update(t for t in toks if t != ".")
+            call_guard(lambda: sf.get_alphabet_from_selfies([x]))
+            call_guard(lambda: sf.len_selfies(x))
+            ctx.count("vocabulary_built_on_library_alphabet")
         a = out(x, compatible=True)
         b = out(y)
         if a[0] == "esc" or b[0] == "esc":
